@@ -43,6 +43,18 @@ LEVEL_TEXT = (
     "The session model is tied to the code by `session` cases (File_Exists among the calls; 2..9 calls over 1..3 paths, 200-row tables followed by 1-row ones, lists where tables were, tabulated functions (list and range overload) among them, repeated requests); "
     "the function round trips are generated with increasing, decreasing, unsorted argument lists, joined grids, runs of one value, signed zeros, neighbours at relative distances 1 ulp .. 1e-6, fixed spacings at magnitudes 1e16..1e22, "
     "and ranges with fewer representable numbers between the limits than steps, descending and coinciding limits, 0..2 steps (coverage.input_distribution args:* / range:* / grid:*). "
+    "(8) seventh pass — the constants in the number type the library computes in (C20_Model2.v; C20_evalN_is_eval_at_reals, C20_startup_any_number_type, C20_fold_is_denotation, C20_startup_is_fold, "
+    "C20_units_fold_is_denotation): the initialisers regenerated from Natural_Units.cpp are evaluated by ONE evaluator polymorphic in the number type — decimal literals converted to the nearest double by the "
+    "model's own integer rounding lit_me, M_PI a parameter —, which at the reals is the evaluator of (1); the start-up theorem and 'a fold that terminates yields the denotation' hold in EVERY number type "
+    "(doubles as they are: no law of the arithmetic is used), for any environment solving the defining equations in that arithmetic. Its double instance is extracted and compared on every run, constant "
+    "by constant (`unit_fold`, `unit_start` cases: all 114 constants; start-up with no / the least one-pass / random safe sets of dynamically initialised constants), with the value the library holds after start-up: bit-identical expected. "
+    "That lit_me rounds correctly is NOT a theorem (tested: the 114 constants agree bit for bit with the compiler's). "
+    "T-tie for functions: the scalar In_Units and Reduced_Mass are regenerated from clang's AST of src/Natural_Units.cpp on every run (tools/cxx2gallina.py, Round a parameter) and proved equal to the hand model in every number type "
+    "(C20_generated_In_Units_is_model, C20_generated_In_Units_shape, C20_generated_Reduced_Mass_is_model); the container overloads (loops) and Round remain hand models. "
+    "(9) content only (C20_import_depends_on_content_only, C20_read_as_fresh_process): what Import_List / Import_Table / Count_Lines / File_Exists answer after ANY calls depends on the content of the file at the path and on the arguments only, "
+    "and is the answer of a fresh process holding nothing but that file. That the library keeps no memory keyed on a file's metadata is NOT a theorem: it is tested by `session:metadata-twins` cases — several round trips to one path within the same second "
+    "whose consecutive files share header, tokens, byte size and entry count but differ in shape or arrangement (table / transpose, other rows x columns splits, permuted entries, list / one-column table / tabulated function alternating), "
+    "with one unit, no units, per-column units, gone through 2..3 times over 1..2 paths (coverage.input_distribution twin:*). "
     "NOT theorems (checked per run by correspondence and implementation-side predicates): that iostreams implement such an fmt6 (the real writer/reader run on tables "
     "1..200 x 1..12, values over 600 decades, units over 60 decades, multi-line and numeric headers), that the compilers' folded static values are the denotation "
     "(each build's constants are read after start-up and compared with the exact denotation), Round's numerical accuracy (property C17), the character-level skipping of header lines (probed with lines of up to 25000 characters), the byte-level buffering of the readers and of the line counter (the line/token model has no byte count: exported and raw files are aimed, through the header length or the width of the entries, at sizes k*B and k*B+-1 for B = 512..65536, and the sizes reached are reported in coverage.size_aimed_files), values whose quotient by the unit is not a normal finite double (excluded and counted); "
@@ -56,7 +68,9 @@ LEVEL_NOTE = ("Coq 8.16.1 kernel; theorems over R use the standard library's rea
               "unopenable output paths not modelled); file system of the session model = association list path -> file, a path is a number (distinct numbers, distinct files; "
               "links and relative/absolute aliases of one file are not modelled)")
 TOL = (1e-12, 0.0)
-TRUSTED = ["fmt6 (the double read back by operator>> from the text operator<< writes at the default precision 6) is instantiated in the OCaml driver as "
+TRUSTED = ["tools/cxx2gallina.py (clang AST -> Gallina) for the scalar In_Units and Reduced_Mass; Round is a parameter of the generated In_Units (hand model round_m; its accuracy is property C17)",
+           "the model's literal conversion lit_me (nearest double of a decimal literal, integer arithmetic) and OCaml's Float.pi for M_PI, Float.pow / sqrt for pow / sqrt in the double instance of the constants' evaluator: compared bit for bit with every constant of the library on every run",
+           "fmt6 (the double read back by operator>> from the text operator<< writes at the default precision 6) is instantiated in the OCaml driver as "
            "float_of_string (sprintf \"%.6g\" y); model and library then agree bit for bit on the values read back",
            "tools/units2v.py (translator of the constants section of Natural_Units.cpp) and nm's symbol sections (.rodata = static, .bss = dynamic initialisation)",
            "that a constant placed in .rodata holds the correctly rounded value of its folded initialiser is the compiler's responsibility; it is checked by reading every "
@@ -518,6 +532,75 @@ def generate_sessions(rng, tier, cs):
         else: cs.append(Case(line, tags))
 
 
+# Metadata twins (seventh pass).  What Import_* answers is a function of the CONTENT of the file and of the arguments (C20_import_depends_on_content_only);
+# an implementation that remembers something about a file between calls and recognises "the same file" by its metadata — path, byte size,
+# modification time (whole seconds), number of header lines, number of entries or lines — answers from memory when the content has changed
+# but the metadata has not.  These sessions make several round trips to ONE path in quick succession (same second) in which consecutive files
+# share the header, the multiset of text tokens (hence byte size: the writers separate entries by one byte) and the number of entries, but
+# differ in shape or arrangement: a table and its transpose, the same numbers in another rows x columns split, the same shape with the
+# entries permuted, a one-column table / a list / a tabulated function alternating at the path; with one unit for all columns (the text
+# stays the same), without units, and with per-column units (sizes then coincide only by chance: control).  The pattern is gone through
+# 2..3 times per session and over 1..2 paths, so that a clock tick between two exports cannot hide it.  Every import is compared with the
+# model and, by the predicates, with the last export to its path — which is what a fresh process reading the file would answer.
+def factor_pairs(n): return [(r_, n // r_) for r_ in range(1, n + 1) if n % r_ == 0 and n // r_ <= 12 and r_ <= 200]
+
+
+def generate_twin_sessions(rng, tier, cs):
+    n_s = 2500 if tier != "quick" else 110
+    for it in range(n_s):
+        npth = rng.choice([1, 1, 2]); paths = [os.path.join(FILES, "twin_%d.txt" % i) for i in range(npth)]
+        kind = rng.choice(["transpose", "transpose", "reshape", "reshape", "permute", "list-table", "function-table", "mixed"])
+        umode = rng.choice(["no-units", "one-unit", "one-unit", "per-column"])
+        d = 1.0 if umode == "no-units" else rand_unit(rng)
+        h = rand_header(rng, multi=True if rng.random() < 0.5 else None); nh = hlines(h)
+        def dims_for(c_):
+            if umode == "no-units": return []
+            if umode == "one-unit": return [d] * c_
+            return [rand_unit(rng) for _ in range(c_)]
+        calls = []
+        def put_table(pi, t, dims=None):
+            dims = dims_for(len(t[0])) if dims is None else dims
+            if umode == "per-column": t = [[value_for(rng, dims[j]) if not pair_ok(x, dims[j]) else x for j, x in enumerate(row)] for row in t]
+            calls.append(f"et {pi} {hexs(h)} {table_line(t)} {flist(dims)}")
+            if rng.random() < 0.25: calls.append(f"{rng.choice(['cl', 'fe'])} {pi}")
+            calls.append(f"it {pi} {flist(dims)} {nh}")
+            if rng.random() < 0.15: calls.append(f"it {pi} {flist(dims)} {nh}")        # the same import again
+        def put_list(pi, l):
+            calls.append(f"el {pi} {hexs(h)} {flist(l)} {hx(d)}"); calls.append(f"il {pi} {hx(d)} {nh}")
+        for pi in range(npth):
+            n = rng.choice([2, 4, 6, 6, 8, 9, 12, 12, 16, 20, 24, 36, 60, 120, 240])
+            flat = [value_for(rng, d) for _ in range(n)]
+            fp = factor_pairs(n)
+            if kind == "transpose":
+                r_, c_ = rng.choice([q for q in fp if q[0] <= 12] or fp)
+                t = [flat[i * c_:(i + 1) * c_] for i in range(r_)]; shapes = [t, [list(col) for col in zip(*t)]]
+            elif kind == "reshape":
+                shapes = [[flat[i * c_:(i + 1) * c_] for i in range(r_)] for r_, c_ in rng.sample(fp, min(len(fp), rng.choice([2, 3])))]
+            elif kind == "permute":
+                r_, c_ = rng.choice(fp); shapes = []
+                for _ in range(2):
+                    f2 = flat[:]; rng.shuffle(f2); shapes.append([f2[i * c_:(i + 1) * c_] for i in range(r_)])
+            elif kind == "list-table":
+                shapes = [("list", flat), [[x] for x in flat], [flat[:12]] if n <= 12 else ("list", flat[::-1])]
+            elif kind == "function-table":
+                fe, f = rng.choice(FEXPRS[:5]); xs = [rng.uniform(-5, 5) for _ in range(max(1, n // 2))]
+                rows = [[x, f(x)] for x in xs]
+                if umode != "no-units" and not all(pair_ok(v_, d) for row in rows for v_ in row): rows = [[1.0 * d, 1.0 * d]]; xs = None
+                shapes = [("func", fe, xs, rows) if xs is not None else rows, [list(col) for col in zip(*rows)] if len(rows) <= 12 else rows[::-1], [[v_] for row in rows for v_ in row]]
+            else:
+                r_, c_ = rng.choice(fp); t = [flat[i * c_:(i + 1) * c_] for i in range(r_)]
+                shapes = [t, ("list", flat), [list(col) for col in zip(*t)] if r_ <= 12 else t[::-1], [[x] for x in flat]]
+            for rep in range(rng.choice([2, 2, 3])):
+                for sh in shapes:
+                    if isinstance(sh, tuple) and sh[0] == "list": put_list(pi, sh[1])
+                    elif isinstance(sh, tuple):
+                        dims = [] if umode == "no-units" else [d, d]
+                        calls.append(f"ef {pi} {hexs(h)} {sh[1]} {flist(sh[2])} {flist(dims)}"); calls.append(f"it {pi} {flist(dims)} {nh}")
+                    else: put_table(pi, sh)
+        line = f"session {npth} " + " ".join(paths) + f" {len(calls)} " + " ".join(calls)
+        cs.append(Case(line, ("session", "session:well-formed", "session:path-rewritten", "session:metadata-twins", "twin:" + kind, "twin:" + umode)))
+
+
 # Long sessions: a block of round trips (export, File_Exists as callers do before importing, Count_Lines, import; 1..3 paths, small
 # lists / tables / tabulated functions) made 300..1200 times over in ONE process, half of them in a process whose soft descriptor
 # limit is 32..256 (ambient item nofN).  Every answer of every repetition is compared with the model and with the last export: a
@@ -680,6 +763,50 @@ def generate_ambient(rng, tier, cs):
     cs += out
 
 
+# ------------------------------------------------------------------ unit constants (seventh pass)
+# `unit_fold X`: the library's constant X read after start-up, against the model's double evaluation of its initialiser with the
+# initialisers of the constants it names inlined (fold_const).  `unit_start X k d1..dk`: against the model's start-up (startup_const)
+# in which d1..dk are initialised dynamically in textual order and the others hold their folded value.  The dynamic sets: none; the
+# least one a one-pass compiler can choose (a constant that names a textually later constant cannot be folded, nor can anything built on
+# it); random ones closed under "is built on" that pass the order check (units2v.safe_py = C20_Model.safe) — for every such set the
+# start-up value is the folded value (C20_startup_any_number_type), so the answer of the library must not depend on it either.
+_UNITS = {}
+
+
+def units_info():
+    if "defs" not in _UNITS:
+        defs = units2v.parse_source(os.path.join(vbuild.REPO, "src", "Natural_Units.cpp"))
+        _UNITS["defs"] = defs; _UNITS["exact"] = units2v.eval_exact(defs); _UNITS["nr"] = units2v.n_roundings(defs)
+    return _UNITS
+
+
+def close_dynamic(defs, seeds):
+    dyn = set(seeds); ch = True
+    while ch:
+        ch = False
+        for n, a, _ in defs:
+            if n not in dyn and any(r in dyn for r in units2v.refs(a)): dyn.add(n); ch = True
+    return dyn
+
+
+def generate_units(rng, tier, cs):
+    try: defs = units_info()["defs"]
+    except Exception: return          # (the translator stage reports a source it cannot parse)
+    names = [n for n, _, _ in defs]; pos = {n: i for i, n in enumerate(names)}
+    least = close_dynamic(defs, [n for n, a, _ in defs if any(pos.get(r, -1) > pos[n] for r in units2v.refs(a))])
+    sets = [("dyn:none", []), ("dyn:least-one-pass", [n for n in names if n in least])]
+    tries = 0
+    while len(sets) < (14 if tier != "quick" else 5) and tries < 200:
+        tries += 1
+        dyn = close_dynamic(defs, set(rng.sample(names, rng.choice([1, 2, 3, 8, 20]))) | (least if rng.random() < 0.7 else set()))
+        if units2v.safe_py(defs, dyn) is None: sets.append(("dyn:random-safe", [n for n in names if n in dyn]))
+    for n in names:
+        cs.append(Case(f"unit_fold {n}", ("units", "unit:fold")))
+    for tag, dyn in sets:
+        for n in (names if tag != "dyn:random-safe" else rng.sample(names, 40) + dyn[:20]):
+            cs.append(Case(f"unit_start {n} {len(dyn)} " + " ".join(dyn), ("units", "unit:start-up", tag, "unit:dynamic" if n in dyn else "unit:static")))
+
+
 # ------------------------------------------------------------------ generation
 def generate(rng, tier):
     os.makedirs(FILES, exist_ok=True)
@@ -802,12 +929,15 @@ def generate(rng, tier):
         if which == 0: dims = dims[:1]
         spec = " ".join(f"{len(l)} " + " ".join(l) if l else "0" for l in lines)
         cs.append(Case(f"import_raw {os.path.join(FILES, 'raw.txt')} {which} {term} {len(lines)} {spec} {flist(dims)} {ign}".replace("  ", " "), ("guards", "raw-" + kind)))
+    # ---- the unit constants, one by one: folded initialiser / start-up under safe classifications (model: C20_Model2.v)
+    generate_units(rng, tier, cs)
     # ---- files whose byte size sits on / next to a multiple of a buffer or block size
     generate_sized(rng, tier, cs)
     # ---- the same round trips in a process with another global locale / stream state / an old file at the path / a relative path
     generate_ambient(rng, tier, cs)
     # ---- several calls in one process over a few paths
     generate_sessions(rng, tier, cs)
+    generate_twin_sessions(rng, tier, cs)
     generate_long_sessions(rng, tier, cs)
     return cs
 
@@ -911,6 +1041,16 @@ def predicates(c, io):
                     m = y / unit
                     if not (abs(m - round(m)) <= 1e-6 * max(1.0, abs(m))): out.append((op + ":round-digits", f"entry ({i},{j}): {y!r} has more than {dg} significant digits"))
                 elif rd and e == 0 and y != 0: out.append((op + ":round", "Round(0) is not 0"))
+    elif op in ("unit_fold", "unit_start"):
+        # the constant the library holds after start-up against the exact (rational / 60-digit) value of its defining expression;
+        # a priori slack: one half-ulp relative error per rounded operation of the fully inlined initialiser (as in the extra stage)
+        n = r.w()
+        try: u = units_info()
+        except Exception: return out
+        if n not in u["exact"] or io.startswith(("EXIT", "HARNESSERR")): return out
+        ref = float(u["exact"][n]); got = v[0]
+        if not (abs(got - ref) <= (u["nr"][n] + 2) * EPS * 1.0001 * abs(ref)):
+            out.append((f"unit_const:value:{n}", f"after start-up {n} = {got!r}, but its defining expression denotes {ref!r}"))
     elif op == "reduced_mass":
         a, b = r.f(), r.f(); y = v[0]
         if y != a * b / (a + b): out.append(("reduced_mass:formula", f"{y!r} is not m1*m2/(m1+m2) = {a*b/(a+b)!r}"))
@@ -999,10 +1139,29 @@ def predicates(c, io):
 
 
 # ------------------------------------------------------------------ T-tie
+def gen_functions():
+    """T-tie (seventh pass): the scalar In_Units and Reduced_Mass of src/Natural_Units.cpp are regenerated from clang's AST on every
+    run (coq/Gen_C20_Formulas.v, tools/cxx2gallina.py in extended mode: Round, of Special_Functions.cpp, is a parameter) and proved equal
+    to the hand model in coq/C20_GenTie.v"""
+    import cxx2gallina as c
+    d = "double"
+    fns = [c.Fn("In_Units", [d, d, "bool", "int"], "g_In_Units"), c.Fn("Reduced_Mass", [d, d], "g_Reduced_Mass")]
+    exts = [c.Ext("Round", [d, "uint"], "round_f")]
+    return fns, exts
+
+
 def regenerate():
+    import cxx2gallina as c
+    fns, exts = gen_functions()
+    try:
+        txt = c.translate_all(os.path.join(vbuild.REPO, "src", "Natural_Units.cpp"), fns, [os.path.join(vbuild.REPO, "include")], exts, False)
+    except c.Unsupported as e:
+        raise RuntimeError(f"tools/cxx2gallina.py cannot translate In_Units / Reduced_Mass of src/Natural_Units.cpp: {e}")
     # under the build lock: no build of the development runs while the generated file is replaced
     with vbuild.Lock("coq"):
         log = units2v.regenerate(vbuild.REPO, COQ)
+        if c.write_if_changed(os.path.join(COQ, "Gen_C20_Formulas.v"), txt):
+            log = (log + "; " if log else "") + "Gen_C20_Formulas.v regenerated from the current source"
         # runs against different source trees (a copy with a change under VERIF_REPO) share this file: a compiled file whose source
         # was replaced during its compilation is newer than the source and yet holds other definitions.  coqc records the digest of
         # the text it compiled in the .glob file; a compiled file made from another text than the present one is discarded.
